@@ -57,8 +57,15 @@ def matches(finding, v):
         return False
     if finding["property"] != v["property"] or finding["oracle"] != v["oracle"]:
         return False
-    for k, want in finding.get("site", {}).items():
-        got = v["site"].get(k)
+    pats = finding.get("site", {})
+    if isinstance(pats, dict):
+        pats = [pats]
+    return any(_site_matches(p, v["site"]) for p in pats)
+
+
+def _site_matches(pat, site):
+    for k, want in pat.items():
+        got = site.get(k)
         if isinstance(want, list):
             if got not in want:
                 return False
@@ -278,6 +285,7 @@ def run_check(name, tier):
     reported = []
     samples = []
     digest = hashlib.sha256()
+    survey, survey_ex = {}, {}
     for r in results:
         digest.update(str(r.get("digest")).encode())
         for k, v in r.get("faults", {}).items():
@@ -292,6 +300,12 @@ def run_check(name, tier):
             nontrivial.add(jdump(r["nontrivial"]))
         if r["i"] < 3 and "case" in r:
             samples.append({"run": r["i"], "case": r["case"], "outcome": r.get("outcome")})
+        if r.get("violations") and os.environ.get("VERIF_SURVEY"):
+            for v in r["violations"]:
+                k = (v["property"], v["oracle"], jdump(v["site"]))
+                survey[k] = survey.get(k, 0) + 1
+                survey_ex.setdefault(k, (r["i"], v.get("detail", "")))
+            continue
         if r.get("violations"):
             unknown, known = classify(r["violations"], findings)
             for fid, v in known:
@@ -313,6 +327,10 @@ def run_check(name, tier):
                 n_viol += 1
                 exit_code = 1
 
+    if survey:
+        for k, n in sorted(survey.items(), key=lambda kv: -kv[1]):
+            print("SURVEY %5d %s %s %s   e.g. run %d: %s" % (n, k[0], k[1], k[2], survey_ex[k][0], survey_ex[k][1][:150]))
+        return 3
     wall = time.time() - t0
     ev = {
         "property_id": prop,
